@@ -100,7 +100,16 @@ type passOutcome struct {
 	interrupted bool   // stopped for the rewind before the stream ended
 	noProgress  bool   // the consumer gave up on a reader that returns (0, nil) forever
 	reads       int
-	noBytes     bool // the mode hands no bytes to the caller (tar-readfile, ociconfig)
+	noBytes     bool // the mode hands no bytes to the caller (tar-readfile, ociconfig, tar-walk)
+	walk        bool // tar-walk: the clean end is only judged when the source was drained
+	seekWorked  bool // an arbitrary Seek succeeded: the bytes handed out are no longer the whole stream
+}
+
+// loopHooks are actions interleaved with the Read calls of pass 0 (loop mode).
+type loopHooks struct {
+	cancelAt int // >= 0: cancel() before that Read call
+	cancel   func()
+	badSeek  bool
 }
 
 func (o *passOutcome) clean(afterErr bool) {
@@ -120,7 +129,7 @@ func (o *passOutcome) fail(err error) {
 // readLoop performs Read calls with the case's buffer sizes. It stops for a
 // rewind after stopAfter calls (if >= 0 and the stream has not ended), and
 // performs post extra calls after the first terminal result.
-func readLoop(br *blob.BReader, o *passOutcome, bufs []int, tell int, stopAfter int, post int, startIdx int) {
+func readLoop(br *blob.BReader, o *passOutcome, bufs []int, tell int, stopAfter int, post int, startIdx int, hk *loopHooks) {
 	maxb := 1
 	for _, b := range bufs {
 		maxb = max(maxb, b)
@@ -138,6 +147,18 @@ func readLoop(br *blob.BReader, o *passOutcome, bufs []int, tell int, stopAfter 
 				return
 			}
 			post--
+		}
+		if hk != nil && hk.cancelAt >= 0 && i == hk.cancelAt && hk.cancel != nil {
+			hk.cancel()
+		}
+		if hk != nil && hk.badSeek && i == 1 {
+			// arbitrary seeks are documented to fail and must leave the stream alone
+			_, e1 := br.Seek(5, io.SeekStart)
+			_, e2 := br.Seek(-1, io.SeekEnd)
+			if e1 == nil || e2 == nil {
+				o.seekWorked = true
+				return
+			}
 		}
 		if tell > 0 && i%tell == tell-1 {
 			_, _ = br.Seek(0, io.SeekCurrent)
@@ -195,8 +216,15 @@ type plainWriter struct{ w io.Writer }
 func (p plainWriter) Write(b []byte) (int, error) { return p.w.Write(b) }
 
 // consume runs pass p of the case over the reader.
-func consume(c *Case, p int, br *blob.BReader, last bool) *passOutcome {
+func consume(c *Case, p int, br *blob.BReader, last bool, w world, desc descriptor.Descriptor, cancel func()) *passOutcome {
 	o := &passOutcome{}
+	var hk *loopHooks
+	if p == 0 && (c.Cancel >= 3 || c.BadSeek) {
+		hk = &loopHooks{cancelAt: -1, cancel: cancel, badSeek: c.BadSeek}
+		if c.Cancel >= 3 {
+			hk.cancelAt = c.Cancel - 3
+		}
+	}
 	stopAfter := -1
 	if !last && c.Passes[p].Stop > 0 {
 		stopAfter = c.Passes[p].Stop - 1
@@ -211,12 +239,48 @@ func consume(c *Case, p int, br *blob.BReader, last bool) *passOutcome {
 	}
 	switch c.Mode {
 	case "loop":
-		readLoop(br, o, c.ReadBufs, c.Tell, stopAfter, c.PostReads, 0)
+		readLoop(br, o, c.ReadBufs, c.Tell, stopAfter, c.PostReads, 0, hk)
 		return o
-	case "tar-rawbody", "tar-readfile":
-		tr, err := br.ToTarReader()
-		if err != nil {
-			o.fail(err)
+	case "tar-rawbody", "tar-readfile", "tar-walk":
+		var tr *blob.BTarReader
+		if rw, ok := w.(*readerWorld); ok && c.TarDirect {
+			tr = rw.tarDirect(desc)
+		} else {
+			var err error
+			tr, err = br.ToTarReader()
+			if err != nil {
+				o.fail(err)
+				return o
+			}
+		}
+		if c.Mode == "tar-walk" {
+			// what regctl blob diff-layer does: walk every entry of the archive to its end, then Close
+			o.noBytes, o.walk = true, true
+			trd, err := tr.GetTarReader()
+			if err != nil {
+				o.fail(err)
+				return o
+			}
+			for k := 0; k < 10000; k++ {
+				_, err := trd.Next()
+				if err == io.EOF {
+					if err := tr.Close(); err != nil {
+						o.fail(err)
+					} else {
+						o.clean(false)
+					}
+					return o
+				}
+				if err != nil {
+					o.fail(err)
+					return o
+				}
+				if _, err := io.Copy(io.Discard, trd); err != nil {
+					o.fail(err)
+					return o
+				}
+			}
+			o.fail(errors.New("harness: archive has more than 10000 entries"))
 			return o
 		}
 		if c.Mode == "tar-rawbody" {
@@ -225,7 +289,7 @@ func consume(c *Case, p int, br *blob.BReader, last bool) *passOutcome {
 			return o
 		}
 		o.noBytes = true
-		_, _, err = tr.ReadFile(absentFile)
+		_, _, err := tr.ReadFile(absentFile)
 		switch {
 		case err == errs.ErrFileNotFound:
 			// the designated result of a completed scan (the whole blob was read and verified)
@@ -266,7 +330,7 @@ func consume(c *Case, p int, br *blob.BReader, last bool) *passOutcome {
 		whole(buf.Bytes(), err)
 	}
 	// reads continuing after the end
-	readLoop(br, o, []int{16, 1, 0}, 0, -1, c.PostReads, 0)
+	readLoop(br, o, []int{16, 1, 0}, 0, -1, c.PostReads, 0, nil)
 	return o
 }
 
@@ -303,6 +367,23 @@ func tarScannable(ct Content) bool {
 	return false
 }
 
+// xzOverZeroReads: github.com/ulikunitz/xz fails with "no data" when its source returns (0, nil)
+// (allowed by io.Reader, but that decoder does not tolerate it): an intact xz layer over a source
+// that produces such reads legitimately ends in an error, so the non-vacuity clause is not applied.
+func xzOverZeroReads(c *Case) bool {
+	if c.Content.Comp != "xz" {
+		return false
+	}
+	for _, p := range c.Passes {
+		for _, x := range p.Chunks {
+			if x == 0 {
+				return true
+			}
+		}
+	}
+	return false
+}
+
 func shortErr(err error) string {
 	if err == nil {
 		return "<nil>"
@@ -329,6 +410,7 @@ func check(c Case, ev *evid.Collector) *evid.Violation {
 		}
 	}
 	desc := descFor(dig, int64(declSize))
+	desc.MediaType = c.MediaType
 	descConsistent := declSize == 0 || declSize == len(content)
 
 	var w world
@@ -372,8 +454,51 @@ func check(c Case, ev *evid.Collector) *evid.Violation {
 		return w.delivered()
 	}
 
+	drained := func() (bool, bool) {
+		if inlineUsed {
+			return true, true
+		}
+		return w.drained()
+	}
+
 	labels := []string{"entry:" + entryClass(&c), "mode:" + c.Mode, "algo:" + c.Algo, "content:" + c.Content.Kind,
-		"passes:" + strconv.Itoa(len(c.Passes))}
+		"passes:" + strconv.Itoa(len(c.Passes)), "refform:" + strconv.Itoa(c.RefForm)}
+	if c.MediaType == "" {
+		labels = append(labels, "desc:no-media-type")
+	}
+	if c.Content.Kind == "tar" {
+		switch {
+		case c.Content.Comp != "":
+			labels = append(labels, "tar:"+c.Content.Comp)
+		case c.Content.Gzip:
+			labels = append(labels, "tar:gzip")
+		default:
+			labels = append(labels, "tar:plain")
+		}
+	}
+	if c.ViaResp {
+		labels = append(labels, "reader:via-WithResp")
+	}
+	if c.TarDirect {
+		labels = append(labels, "reader:NewTarReader-direct")
+	}
+	if c.Unseekable {
+		labels = append(labels, "reader:unseekable")
+	}
+	if c.BadSeek {
+		labels = append(labels, "reads:arbitrary-seek-attempted")
+	}
+	switch {
+	case c.Cancel == 1:
+		labels = append(labels, "ctx:cancelled-before-request")
+	case c.Cancel == 2 || (c.Cancel >= 3 && c.Mode != "loop"):
+		labels = append(labels, "ctx:cancelled-before-rewind")
+	case c.Cancel >= 3:
+		labels = append(labels, "ctx:cancelled-between-reads")
+	}
+	if hk := c.Passes[0].hdrKind(); hk != "req" && (c.Entry == "reader" || c.Entry == "reg" || c.Backing == "reg") {
+		labels = append(labels, "hdr-digest:"+hk)
+	}
 	if c.SizeKnown {
 		labels = append(labels, "size:known")
 	} else {
@@ -453,7 +578,11 @@ func check(c Case, ev *evid.Collector) *evid.Violation {
 		}
 	}
 
-	ctx := context.Background()
+	ctx, cancelCtx := context.WithCancel(context.Background())
+	defer cancelCtx()
+	if c.Cancel == 1 {
+		cancelCtx()
+	}
 	br, err := w.open(ctx, desc)
 	if err != nil && strings.HasPrefix(err.Error(), "harness:") {
 		violation = &evid.Violation{Sig: "harness-infra", Msg: err.Error()}
@@ -499,13 +628,31 @@ func check(c Case, ev *evid.Collector) *evid.Violation {
 			o.fail(err)
 			labels = append(labels, "outcome:open-error")
 		} else {
-			o = consume(&c, p, br, last)
+			o = consume(&c, p, br, last, w, desc, cancelCtx)
+		}
+		if o.seekWorked {
+			// an arbitrary seek succeeded: the caller no longer reads the whole stream, nothing is judged
+			labels = append(labels, "reads:arbitrary-seek-succeeded-unjudged")
+			return finish()
 		}
 
 		// ---- clauses (1) and (2): every clean end is judged on the bytes of this pass alone
 		for i, at := range o.cleanAt {
 			judged := o.got[:at]
 			src := "bytes handed to the caller"
+			if o.walk && os.Getenv("VERIF_C01_NO_WALK_JUDGE") != "" {
+				labels = append(labels, "walk:judgement-disabled-by-env")
+				continue
+			}
+			if o.walk {
+				// walking the archive stops at its end-of-archive marker; the library has only seen the whole
+				// stream when the source handed out everything including its EOF - only then is Close judged
+				if done, ok := drained(); !ok || !done {
+					labels = append(labels, "walk:clean-but-source-not-drained-unjudged")
+					continue
+				}
+				labels = append(labels, "walk:clean-and-source-drained-judged")
+			}
 			if o.noBytes {
 				if d, ok := delivered(); ok {
 					judged, src = d, "bytes pulled from the source"
@@ -518,6 +665,7 @@ func check(c Case, ev *evid.Collector) *evid.Violation {
 				if o.cleanAfter[i] {
 					sig = "clean-eof-after-error-on-" + what + suffix
 				}
+
 				if strings.HasPrefix(c.Mode, "tar-") && !descConsistent && (what == "wrong-size" || o.noBytes) {
 					// specific behaviour: BTarReader verifies the digest but not the stated size. With a
 					// descriptor whose size disagrees with its digest no stream can match, so every clean
@@ -525,8 +673,12 @@ func check(c Case, ev *evid.Collector) *evid.Violation {
 					// end of the file, which the harness cannot observe on a layout).
 					sig = "tar-reader-ignores-stated-size"
 				}
+				if o.walk {
+					// GetTarReader + walk to the end of the archive + Close: nothing verifies the blob
+					sig = "tar-walk-and-close-never-verify"
+				}
 				violation = evid.V(sig, "entry %s, mode %s, pass %d: the read ended cleanly (%s) although the %s (%d bytes, %s) do not match the descriptor {digest %s (content of %d bytes), size %d}: %s; served stream: %s of %d bytes; earlier errors in this pass: %v",
-					entryClass(&c), c.Mode, p, map[bool]string{true: "errs.ErrFileNotFound / nil", false: "io.EOF / nil"}[o.noBytes], src, len(judged), digestOf(c.Algo, judged), dig, len(content), declSize, what,
+					entryClass(&c), c.Mode, p, map[bool]string{true: "errs.ErrFileNotFound / nil from Close after the archive walk", false: "io.EOF / nil"}[o.noBytes], src, len(judged), digestOf(c.Algo, judged), dig, len(content), declSize, what,
 					ps.Corr.Kind, len(S), o.errMsgs)
 				return finish()
 			}
@@ -545,8 +697,8 @@ func check(c Case, ev *evid.Collector) *evid.Violation {
 			labels = append(labels, "outcome:error")
 		}
 		benign, why := isBenign()
-		nv := !o.interrupted && intactSoFar && descConsistent && benign && progressPossible(&c) &&
-			(c.Mode != "tar-readfile" || tarScannable(c.Content))
+		nv := !o.interrupted && intactSoFar && descConsistent && benign && progressPossible(&c) && c.Cancel == 0 &&
+			((c.Mode != "tar-readfile" && c.Mode != "tar-walk") || (tarScannable(c.Content) && !xzOverZeroReads(&c)))
 		if nv {
 			labels = append(labels, "nonvacuity:applied"+suffix)
 			if isBlocked(w) {
@@ -589,11 +741,14 @@ func check(c Case, ev *evid.Collector) *evid.Violation {
 			keyParts = append(keyParts, "rwfail")
 		}
 		w.nextPass(p + 1)
+		if p == 0 && c.Cancel >= 2 {
+			cancelCtx()
+		}
 		pos, serr := br.Seek(0, io.SeekStart)
 		if serr != nil || pos != 0 {
 			labels = append(labels, "rewind:refused")
 			benign, _ := isBenign()
-			if serr != nil && intactSoFar && descConsistent && bytes.Equal(stream(p+1), content) && benign && !c.Unseekable && !o.noProgress && !w.spun() &&
+			if serr != nil && intactSoFar && descConsistent && bytes.Equal(stream(p+1), content) && benign && !c.Unseekable && !o.noProgress && !w.spun() && c.Cancel == 0 &&
 				(o.interrupted || cleanFirst) {
 				if isBlocked(w) {
 					violation = evid.V("intact-read-blocks-on-own-throttle-slot", "entry %s, pass %d: the rewind of an intact stream had to wait for a host throttle slot (reqConcurrent %d) that only the read's own earlier requests hold, i.e. it blocks forever; GETs so far: %s",
